@@ -270,7 +270,11 @@ def rule_table_kind(prog, rep, tier, domain=("static", "self", "cls")):
     for c in ast.walk(gft.node):
         if isinstance(c, ast.Compare) and len(c.ops) == 1 and isinstance(c.ops[0], ast.In):
             v = folder.fold(c.comparators[0], {}, c)
-            if v is not UNKNOWN:
+            if isinstance(v, str):
+                # membership in a string is a substring test: every kind whose name occurs in it is recognised (that other
+                # words are, too, is STR-MEMBER's finding)
+                recog |= {d for d in domain if d in v}
+            elif v is not UNKNOWN:
                 recog |= set(v)
         if isinstance(c, ast.Compare) and len(c.ops) == 1 and isinstance(c.ops[0], ast.Eq) and isinstance(c.comparators[0], ast.Constant) and isinstance(c.comparators[0].value, str):
             recog.add(c.comparators[0].value)
@@ -727,13 +731,15 @@ def rule_receiver_sites(prog, rep, tier, anchors=("ast_utils.annotate_ancestry",
     for c in ast.walk(gft.node):
         if isinstance(c, ast.Compare) and len(c.ops) == 1 and isinstance(c.ops[0], ast.In):
             v = folder.fold(c.comparators[0], {}, c)
-            if v is not UNKNOWN:
+            if v is not UNKNOWN and isinstance(v, (tuple, list, set, frozenset)):
                 recog |= {x for x in v if isinstance(x, str)}
         if isinstance(c, ast.Compare) and len(c.ops) == 1 and isinstance(c.ops[0], ast.Eq) and isinstance(c.comparators[0], ast.Constant) and isinstance(c.comparators[0].value, str):
             recog.add(c.comparators[0].value)
     receivers = {x for x in recog if x not in ("static", None)}
     if len(receivers) < 2:
-        raise AnalysisError("RECEIVER-SITES: get_function_type recognises only %r as receivers" % sorted(receivers))
+        # the recogniser itself does not name its receivers as a table (TABLE-kind judges that): the kinds the interface has
+        receivers = {"self", "cls"}
+        rep.note("RECEIVER-SITES", "get_function_type does not spell out its receivers as a table; the method kinds of the interface (self, cls) are used")
     n = 0
     seen = set()
     roots = [prog.fn(a) for a in anchors if prog.has_fn(a)]
